@@ -610,7 +610,9 @@ func c12MemberFiles(r *Rng) map[string]string {
 			own = append(own, ch[strings.Index(ch, ".")+1:])
 		}
 	}
+	hasMeth := false
 	if len(own) > 0 && r.Bool() {
+		hasMeth = true
 		k1, k2 := r.Pick(own), r.Pick(own)
 		fmt.Fprintf(&sb, "function %s:meth%d(n)\n  local function nested%d()\n    return self.%s\n  end\n  self.%s = nested%d()\n  return function()\n    return self.%s, n\n  end\nend\n", root, k, k, k1, k1, k, k2)
 	}
@@ -638,6 +640,10 @@ func c12MemberFiles(r *Rng) map[string]string {
 		ch := r.Pick(chains)
 		ch = alias + ch[len(root):]
 		fmt.Fprintf(&other, "print(%s)\n", ch)
+	}
+	if hasMeth {
+		// the method called from the other file, with colon and with dot syntax, at top level and inside a function
+		fmt.Fprintf(&other, "%s:meth%d(1)\nprint(%s.meth%d(%s, 2))\nlocal function caller%d()\n  return %s:meth%d(3)\nend\nprint(caller%d)\n", alias, k, alias, k, alias, k, alias, k, k)
 	}
 	files[fmt.Sprintf("conf%d.lua", k)] = sb.String()
 	files["use.lua"] = other.String()
